@@ -45,6 +45,12 @@ type observation struct {
 	// texts are numbers that round to the same float64
 	Doc string `json:"doc"`
 	F64 bool   `json:"f64"`
+	// Sm, Tm, Enum3: a third value (taken from another vector, placed between the two; its text
+	// sorts between theirs when such a vector is near) and the outcome of the enum [a, m, b]:
+	// a repeated value has to be found wherever it stands
+	Sm    stdjson.RawMessage `json:"sm"`
+	Tm    []int              `json:"tm"`
+	Enum3 string             `json:"enum3"`
 }
 
 func equal(a, b string) (res string) {
@@ -63,14 +69,18 @@ func equal(a, b string) (res string) {
 	return "false"
 }
 
-func enumOutcome(a, b string) (res string) {
+func enumOutcome(members ...string) (res string) {
 	defer func() {
 		if e := recover(); e != nil {
 			res = "panic"
 		}
 	}()
 	p := jsonschema.NewParser(jsonschema.Settings{})
-	_, err := p.Parse(&jsonschema.RawSchema{Enum: jsonschema.Enum{stdjson.RawMessage(a), stdjson.RawMessage(b)}}, jsonpointer.NewResolveCtx(nil, 10))
+	var enum jsonschema.Enum
+	for _, m := range members {
+		enum = append(enum, stdjson.RawMessage(m))
+	}
+	_, err := p.Parse(&jsonschema.RawSchema{Enum: enum}, jsonpointer.NewResolveCtx(nil, 10))
 	switch {
 	case err == nil:
 		return "ok"
@@ -150,7 +160,7 @@ func sameFloat64(a, b string) bool {
 var nullSp = stdjson.RawMessage(`{"t":"lit","v":"null"}`)
 
 func observe(sa, sb stdjson.RawMessage, ta, tb string, withEnum bool) observation {
-	o := observation{Sa: sa, Sb: sb, Ta: bx.Ints(ta), Tb: bx.Ints(tb), Enum: "na", Red: "na", Doc: "na"}
+	o := observation{Sa: sa, Sb: sb, Ta: bx.Ints(ta), Tb: bx.Ints(tb), Enum: "na", Red: "na", Doc: "na", Sm: nullSp, Tm: []int{}, Enum3: "na"}
 	o.AB, o.BA, o.AA = equal(ta, tb), equal(tb, ta), equal(ta, ta)
 	if withEnum {
 		o.Enum = enumOutcome(ta, tb)
@@ -575,6 +585,16 @@ func Check(r *core.Run) error {
 	r.Cov("enumerated_pairs", len(vecs))
 	r.SetExhaustive(true)
 	var all []observation
+	nBetween := 0
+	firstText := make([]string, len(vecs))
+	for i, l := range vecs {
+		var w struct {
+			Ta []int `json:"ta"`
+		}
+		if stdjson.Unmarshal(l, &w) == nil {
+			firstText[i] = bx.Str(w.Ta)
+		}
+	}
 	for i, l := range vecs {
 		var v struct {
 			Sa stdjson.RawMessage `json:"sa"`
@@ -586,6 +606,35 @@ func Check(r *core.Run) error {
 			return err
 		}
 		o := observe(v.Sa, v.Sb, bx.Str(v.Ta), bx.Str(v.Tb), true)
+		// a third member from a vector nearby, preferably one whose text sorts strictly between
+		if len(vecs) > 1 {
+			lo, hi := bx.Str(v.Ta), bx.Str(v.Tb)
+			if lo > hi {
+				lo, hi = hi, lo
+			}
+			pick := (i + 1) % len(vecs)
+			for d := 1; d <= 400; d++ {
+				found := false
+				for _, k := range []int{i + d, i - d} {
+					if k >= 0 && k < len(vecs) && firstText[k] > lo && firstText[k] < hi {
+						pick, found = k, true
+						nBetween++
+						break
+					}
+				}
+				if found {
+					break
+				}
+			}
+			var w struct {
+				Sa stdjson.RawMessage `json:"sa"`
+				Ta []int              `json:"ta"`
+			}
+			if stdjson.Unmarshal(vecs[pick], &w) == nil && len(w.Ta) > 0 {
+				o.Sm, o.Tm = w.Sa, w.Ta
+				o.Enum3 = enumOutcome(bx.Str(v.Ta), bx.Str(o.Tm), bx.Str(v.Tb))
+			}
+		}
 		all = append(all, o)
 		if i%4000 == 5 {
 			r.Sample(map[string]any{"a": bx.Str(v.Ta), "b": bx.Str(v.Tb), "ab": o.AB, "ba": o.BA, "enum": o.Enum})
@@ -619,6 +668,7 @@ func Check(r *core.Run) error {
 			r.Sample(map[string]any{"a": t1, "respelled": t2, "mutant": t3})
 		}
 	}
+	r.Cov("three_member_enums_with_the_third_text_between", nBetween)
 	r.Cov("random_values", nRand)
 	r.Cov("malformed_texts", nMal)
 	lines := make([][]byte, len(all))
@@ -642,7 +692,7 @@ func Check(r *core.Run) error {
 	}
 	for _, v := range vs {
 		o := all[v.Index]
-		what := fmt.Sprintf("json.Equal(%q, %q) = %s, swapped = %s, reflexive = %s, enum = %s, default-response reduction = %s, enum in a loaded document = %s", bx.Str(o.Ta), bx.Str(o.Tb), o.AB, o.BA, o.AA, o.Enum, o.Red, o.Doc)
+		what := fmt.Sprintf("json.Equal(%q, %q) = %s, swapped = %s, reflexive = %s, enum = %s, default-response reduction = %s, enum in a loaded document = %s, enum with %q between the two = %s", bx.Str(o.Ta), bx.Str(o.Tb), o.AB, o.BA, o.AA, o.Enum, o.Red, o.Doc, bx.Str(o.Tm), o.Enum3)
 		switch {
 		case v.Kind == "drift":
 			r.Drift(what)
